@@ -14,7 +14,8 @@ import Logrange.Generated.C04
 * `limit`                   — the regenerated merge limit of `newCursor`
 
 `<tree>` is prefix notation: `M <tree> <tree>` | `<leaf>`; `<leaf>` is `L <tags> <n> <ts>:<msg>{n}`.
-`<op>`: `g` Get, `n` Next, `r` Release, `b1`/`b0` SetBackward(true/false), `d` drain (Get/Next until EOF).
+`<op>`: `g` Get, `n` Next, `r` Release, `b1`/`b0` SetBackward(true/false), `d` drain (Get/Next until EOF),
+`a<k>:<ts>:<msg>` append a record to the k-th source (left to right from 0) behind the mixers' back.
 Answer: one token per op — `g`: `<ts>:<msg>:<tags>` or `eof`, followed (when the root is a mixer) by
 `/<st><eof1><eof2>`; `n`,`r`,`b*`: `.` plus the same suffix; `d`: the events joined by `,` (or `-`) . -/
 open Go Logrange.Mixer Logrange.MixTree Driver
@@ -83,7 +84,15 @@ def runOps (it : It Leaf) : List String → List String
   | "b0" :: ops => let it' := it.setBackward false; ("." ++ suffix it') :: runOps it' ops
   | "d" :: ops => let (it', es) := drainAll (totalRecs it + 2) it
     ((if es.isEmpty then "-" else ",".intercalate (es.map showEv)) ++ suffix it') :: runOps it' ops
-  | _ :: ops => "bad-op" :: runOps it ops
+  | op :: ops =>
+    -- `a<k>:<ts>:<msg>`: a record is appended to the k-th source (left to right, from 0)
+    if op.startsWith "a" then
+      match (op.drop 1).toString.splitOn ":" with
+      | [k, t, m] =>
+        let it' := it.modifyLeaf (Leaf.append ⟨t.toInt?.getD 0, m.toNat?.getD 0⟩) (k.toNat?.getD 0)
+        ("." ++ suffix it') :: runOps it' ops
+      | _ => "bad-op" :: runOps it ops
+    else "bad-op" :: runOps it ops
 
 def afterBar (toks : List String) : List String := (toks.dropWhile (· ≠ "|")).drop 1
 def beforeBar (toks : List String) : List String := toks.takeWhile (· ≠ "|")
